@@ -153,14 +153,13 @@ def run_job(job, deadline):
         acc.check(ctx, "no_admissible_randomised_rule_beats_the_fitted_one", z3.BoolVal(res == z3.unsat), signature=sig,
                   extra={"fitted_objective": float(fitted), "better": (str(q.model())[:300] if res == z3.sat else str(res))})
         acc.check(ctx, "not_worse_than_best_constant", z3.BoolVal(bool(fitted >= best_constant(cfg, y, groups) - Fr(1, 10 ** 9))), signature=sig + ":constant")
-        # canary: demanding strictly more than the fitted value minus a margin must be satisfiable (the LP is feasible and reaches the fitted value)
+        # the fitted rule must itself be one of the admissible rules: its objective value is attained on the requested grid
         q2, _ = better_rule_query(cfg, y, groups, scores, gs, fitted, margin=Fr(-1, 10 ** 6))
-        acc.r["canaries"] += 1
         r2 = q2.check()
-        if r2 == z3.sat:
-            acc.r["canaries_fired"] += 1
-        elif r2 == z3.unsat:
-            acc.r["canaries_silent"] += 1
+        acc.r["queries"] += 1
+        acc.check(ctx, "fitted_value_attained_by_an_admissible_rule_on_the_requested_grid", z3.BoolVal(r2 == z3.sat), signature=sig + ":admissible",
+                  extra={"fitted_objective": float(fitted), "result": str(r2)})
+        acc.canary(ctx, "canary_c05", z3.Real("s0") > 2)
         acc.sample({"job": job["id"], "scores": [str(v) for v in scores], "fitted_objective": float(fitted)})
 
     acc.explore(run, on_ok, deadline=deadline, max_paths=20000)
@@ -189,6 +188,10 @@ def replay(cex):
         m = q.model()
         detail += f"better admissible rule exists: grid value t={m.eval(z3.Real('t'))}, objective {m.eval(value)} "
     bc = best_constant(cfg, y, groups)
-    bad = res == z3.sat or fitted < bc - Fr(1, 10 ** 9)
+    q2, _ = better_rule_query(cfg, y, groups, scores, gs, fitted, margin=Fr(-1, 10 ** 6))
+    r2 = q2.check()
+    if r2 != z3.sat:
+        detail += "the fitted rule is NOT admissible: no per-group mixture on the requested grid reaches its objective value; "
+    bad = res == z3.sat or fitted < bc - Fr(1, 10 ** 9) or r2 != z3.sat
     detail += f"best constant {float(bc):.9g} | scores={[str(v) for v in scores]} y={y} groups={groups} cfg={cfg} grid_size={gs} p1={[float(v) for v in p1]}"
     return {"reproduced": bool(bad), "detail": detail}
